@@ -14,8 +14,8 @@ const BISHOP_DELTAS: [(i8, i8); 4] = [(1, 1), (1, -1), (-1, -1), (-1, 1)];
 /// reference attack set for `occ`. Also: the slot lies inside this square's segment.
 fn m1_square(rook: bool, sq: u8) {
     let e = if rook { &ROOK_MAGICS[sq as usize] } else { &BISHOP_MAGICS[sq as usize] };
-    let occ: u64 = kani::any();
-    let b: u64 = kani::any();
+    let occ: u64 = crate::verif_ref::vany();
+    let b: u64 = crate::verif_ref::vany();
     kani::assume(b & !e.mask == 0);
     let idx = magic_index(e, Bitboard(occ));
     if idx == magic_index(e, Bitboard(b)) {
@@ -64,8 +64,8 @@ m1_batch!(m1_bishop_48, false, 48);
 #[kani::unwind(17)]
 fn witness_m1() {
     let e = &ROOK_MAGICS[27];
-    let occ: u64 = kani::any();
-    let b: u64 = kani::any();
+    let occ: u64 = crate::verif_ref::vany();
+    let b: u64 = crate::verif_ref::vany();
     kani::assume(b & !e.mask == 0);
     if magic_index(e, Bitboard(occ)) == magic_index(e, Bitboard(b)) {
         // the guarded comparison of m1_square is reachable
@@ -78,9 +78,9 @@ fn witness_m1() {
 #[kani::proof]
 #[kani::unwind(9)]
 fn m2_slider_moves_rook() {
-    let sq: u8 = kani::any();
+    let sq: u8 = crate::verif_ref::vany();
     kani::assume(sq < 64);
-    let b: u64 = kani::any();
+    let b: u64 = crate::verif_ref::vany();
     // the walker is only ever called with blocker sets that exclude the slider's own square
     // (make_table enumerates subsets of the mask; M1 asserts the mask excludes the square)
     kani::assume(b & rf::bit(sq) == 0);
@@ -91,9 +91,9 @@ fn m2_slider_moves_rook() {
 #[kani::proof]
 #[kani::unwind(9)]
 fn m2_slider_moves_bishop() {
-    let sq: u8 = kani::any();
+    let sq: u8 = crate::verif_ref::vany();
     kani::assume(sq < 64);
-    let b: u64 = kani::any();
+    let b: u64 = crate::verif_ref::vany();
     kani::assume(b & rf::bit(sq) == 0);
     let got = slider_moves(&BISHOP_DELTAS, Bitboard(rf::bit(sq)), Bitboard(b));
     assert!(got.0 == rf::bishop_attacks(sq, b), "slider_moves(bishop deltas) == reference bishop rays");
@@ -105,9 +105,9 @@ fn m2_slider_moves_bishop() {
 #[kani::proof]
 #[kani::unwind(9)]
 fn m2_lookup_standins() {
-    let sq: u8 = kani::any();
+    let sq: u8 = crate::verif_ref::vany();
     kani::assume(sq < 64);
-    let b: u64 = kani::any();
+    let b: u64 = crate::verif_ref::vany();
     kani::assume(b & rf::bit(sq) == 0);
     let t = MagicTable::verif_empty();
     assert!(t.stub_rook(Bitboard(rf::bit(sq)), Bitboard(b)).0 == rf::rook_attacks(sq, b));
@@ -123,7 +123,7 @@ fn m2_lookup_standins() {
 #[kani::proof]
 #[kani::unwind(66)]
 fn m3_make_table_small() {
-    let magic: u64 = kani::any();
+    let magic: u64 = crate::verif_ref::vany();
     let reps: [usize; 4] = [0, 3, 9, 27];
     let entries: [MagicEntry; 64] = core::array::from_fn(|i| {
         let is_rep = i == 0 || i == 3 || i == 9 || i == 27;
@@ -133,10 +133,10 @@ fn m3_make_table_small() {
         MagicEntry { mask, magic, shift: if is_rep { 62 } else { 63 }, offset: (slot * 4) as u32 }
     });
     let table = make_table(20, &ROOK_DELTAS, &entries);
-    let which: usize = kani::any();
+    let which: usize = crate::verif_ref::vany();
     kani::assume(which < 4);
     let sq = reps[which];
-    let b: u64 = kani::any();
+    let b: u64 = crate::verif_ref::vany();
     kani::assume(b & !entries[sq].mask == 0);
     let idx = magic_index(&entries[sq], Bitboard(b));
     assert!(idx >= which * 4 && idx < which * 4 + 4);
@@ -155,5 +155,38 @@ fn m3_make_table_small() {
         k += 1;
     }
     assert!(found, "slot holds slider_moves of a subset with this index");
+    core::mem::forget(table);
+}
+
+/// M3 (fixed-multiplier shape): the real make_table with a harness-supplied magic set -- 2-bit masks on the
+/// rank of a1, d1, b2, d4 (multiplier 2^(61-sq): a perfect hash of the two mask bits), empty masks elsewhere.
+/// Afterwards, for a symbolic representative square and a symbolic subset b of its mask, the slot b indexes
+/// holds slider_moves(b): the fill loop visits EVERY subset (incl. the empty and the full one), uses the
+/// entry of the right square, and writes through magic_index. With a symbolic multiplier CBMC can no longer
+/// resolve the trip count of the subset loop (the entry is read through a pointer into an array that holds a
+/// symbolic field) and unwinds every square 66 times: > 50 min, so the multiplier is concrete here.
+#[kani::proof]
+#[kani::unwind(66)]
+fn m3_make_table_fixed() {
+    let reps: [usize; 4] = [0, 3, 9, 27];
+    let mut entries: [MagicEntry; 64] = [const { MagicEntry { mask: 0, magic: 0, shift: 63, offset: 16 } }; 64];
+    let mut r = 0;
+    while r < 4 {
+        let sq = reps[r];
+        entries[sq] = MagicEntry { mask: (1u64 << (sq + 1)) | (1u64 << (sq + 2)), magic: 1u64 << (61 - sq), shift: 62, offset: (r * 4) as u32 };
+        r += 1;
+    }
+    let table = make_table(17, &ROOK_DELTAS, &entries);
+    let which: usize = crate::verif_ref::vany();
+    kani::assume(which < 4);
+    let sq = reps[which];
+    let b: u64 = crate::verif_ref::vany();
+    kani::assume(b & !entries[sq].mask == 0);
+    let idx = magic_index(&entries[sq], Bitboard(b));
+    assert!(idx >= which * 4 && idx < which * 4 + 4, "index inside the square's segment");
+    assert!(idx == which * 4 + ((b >> (sq + 1)) & 3) as usize, "the multiplier is a perfect hash of the two mask bits");
+    let want = slider_moves(&ROOK_DELTAS, Bitboard(1u64 << sq), Bitboard(b));
+    assert!(table[idx] == want, "the slot of every subset of the mask holds the attack set the walker computes for it");
+    assert!(want.0 == rf::rook_attacks(sq as u8, b), "which is the reference ray set");
     core::mem::forget(table);
 }
